@@ -138,6 +138,7 @@ def run(rep: Report, tier: str) -> None:
 		else:
 			r2.violate(name, f.where, f'BlockParser.{name} tests {text_p}[i] against the requested brackets / the delimiter, but {why}: a bracket or delimiter inside a string literal is counted (`print("(")`, `f("a,b", c)`), so the fragment is cut inside the string', unparse(tests[0])[:80])
 	rule_angle(rep, bp, pairs)
+	rule_callers(rep, idx)
 
 
 def rule_angle(rep: Report, bp, pairs) -> None:
@@ -185,3 +186,158 @@ def rule_angle(rep: Report, bp, pairs) -> None:
 			if not angle:
 				continue
 			r.check(looks_at_neighbours(f, atoms(fx, c_)), f'{name}:skip-trigger', (BLOCK, c_.lineno), f'{name} starts skipping a foreign block at every `<`, whatever stands next to it: `a < b, c` is never split at the comma and `range(a if a < b else b, n)` is rejected', unparse(c_)[:80])
+
+
+# ---- decomposition by the callers: decorator arguments, parameter defaults -------------------------------------------------------------
+
+DECORATOR = 'rogw/tranp/view/helper/decorator.py'
+CPPVIEW = 'rogw/tranp/implements/cpp/view/cpp_view_helper.py'
+
+
+def _label_pattern(pat: str) -> tuple[bool, bool] | None:
+	"""(starts with a group of identifier characters directly followed by a literal `=`, that `=` is followed by a negative look-ahead for `=`)"""
+	import re._parser as sre  # type: ignore
+	import re._constants as K  # type: ignore
+	try:
+		items = list(sre.parse(pat))
+	except Exception:
+		return None
+	while items and items[0][0] in (K.AT,):
+		items.pop(0)
+	while items and items[0][0] is K.MAX_REPEAT and items[0][1][2][0][0] is K.IN and all(k is K.CATEGORY and v is K.CATEGORY_SPACE for k, v in items[0][1][2][0][1]):
+		items.pop(0)  # leading \s*
+	if not items or items[0][0] is not K.SUBPATTERN:
+		return None
+	inner = list(items[0][1][3])
+	ident = len(inner) == 1 and inner[0][0] is K.MAX_REPEAT and inner[0][1][0] >= 1 and all(
+		(k is K.IN and all((kk is K.CATEGORY and vv in (K.CATEGORY_WORD, K.CATEGORY_DIGIT)) or (kk is K.LITERAL and (chr(vv).isalnum() or chr(vv) == '_')) or (kk is K.RANGE and chr(vv[0]).isalnum() and chr(vv[1]).isalnum()) for kk, vv in v))
+		or (k is K.CATEGORY and v in (K.CATEGORY_WORD, K.CATEGORY_DIGIT)) for k, v in inner[0][1][2])
+	rest = items[1:]
+	while rest and rest[0][0] is K.MAX_REPEAT and rest[0][1][2][0][0] is K.IN and all(k is K.CATEGORY and v is K.CATEGORY_SPACE for k, v in rest[0][1][2][0][1]):
+		rest.pop(0)
+	if not ident or not rest or rest[0] != (K.LITERAL, ord('=')):
+		return (False, False)
+	la = len(rest) > 1 and rest[1][0] is K.ASSERT_NOT and list(rest[1][1][1]) == [(K.LITERAL, ord('='))]
+	return (True, la)
+
+
+def rule_callers(rep: Report, idx: SourceIndex) -> None:
+	"""`Decorator and parameter text decomposed with these helpers reassembles to the original path, arguments, type, name and default`: after the
+	top-level split by BlockParser the callers cut once more at `=`. (a) A decorator argument is `label=value` only when it STARTS with an identifier
+	followed by one `=`: a test for any `=` in the piece cuts positional arguments inside their quotes / brackets / comparison operators, and a cut at
+	the LAST `=` cuts inside the value. (b) A parameter's default is everything after the FIRST top-level `=`: keeping it only when the split gave two
+	pieces drops a default that contains `==`, `<=`, ..."""
+	r = rep.rule('C18/callers-cut-at-the-label-separator', 'DecoratorHelper._parse recognises a label by a leading identifier followed by a single `=` (anchored pattern or identifier test), never by the presence or the last position of `=`; Param.parse keeps everything after the first top-level `=` as the default', floor=2)
+	dm = idx.mod(DECORATOR)
+	rep.consulted(DECORATOR, CPPVIEW)
+	f = dm.func('DecoratorHelper._parse')
+	if f is None:
+		r.skip('decorator-label', (DECORATOR, 1), 'DecoratorHelper._parse vanished')
+	else:
+		fx = f.node
+		loops = [lp for lp in nodes(fx, ast.For) if any(isinstance(c_.func, ast.Attribute) and c_.func.attr == 'break_separator' for c_ in nodes(lp.iter, ast.Call))]
+		if len(loops) != 1:
+			r.skip('decorator-label', f.where, '_parse no longer loops over BlockParser.break_separator(join_args, ",")')
+		else:
+			lp = loops[0]
+			tv = lp.target.elts[-1] if isinstance(lp.target, ast.Tuple) else lp.target
+			av = unparse(tv)
+			verdict = None
+			for c_ in nodes(lp, ast.Call):
+				fn = c_.func
+				if isinstance(fn, ast.Attribute) and unparse(fn.value) == av and c_.args and const_str(c_.args[0]) == '=':
+					if fn.attr in ('rpartition', 'rsplit', 'rfind', 'rindex'):
+						verdict = ('bad', c_, f'_parse cuts a decorator argument at its LAST `=` (`{unparse(c_)}`): a value that contains `=` (`cond=a==b`, `key="a=b"`, `j=f(b=3)`) is cut in the middle, the label becomes `cond=a=` and arg_by("cond") fails')
+						break
+					if fn.attr in ('partition', 'split', 'find', 'index', 'count'):
+						has_ident = any(isinstance(x, ast.Call) and isinstance(x.func, ast.Attribute) and x.func.attr == 'isidentifier' for x in nodes(lp, ast.Call))
+						if not has_ident:
+							verdict = ('bad', c_, f'_parse takes every piece that contains `=` for a labelled argument (`{unparse(c_)}`, no identifier test on the label): a positional argument with `=` inside quotes, brackets or a comparison (`Embed.alias("operator==")`) is cut in the middle and filed under the label `"operator`')
+						elif verdict is None:
+							verdict = ('ok', c_, '')
+				if isinstance(fn, ast.Attribute) and unparse(fn.value) == 're' and fn.attr in ('fullmatch', 'match', 'search') and len(c_.args) >= 2 and unparse(c_.args[1]) == av:
+					pat = const_str(deref(fx, c_.args[0]))
+					lab = _label_pattern(pat) if pat is not None else None
+					if lab is None or (fn.attr == 'search' and not (pat or '').startswith('^')):
+						verdict = verdict or ('skip', c_, f'label pattern `{pat}` not read')
+					elif not lab[0]:
+						verdict = ('bad', c_, f'the label pattern `{pat}` does not start with an identifier group directly followed by `=`: the cut can fall inside quotes or brackets of a positional argument')
+					elif not lab[1]:
+						verdict = ('bad', c_, f'the label pattern `{pat}` accepts `name==...`: the positional comparison `a==b` is filed as label `a` with value `=b`')
+					elif verdict is None:
+						verdict = ('ok', c_, '')
+			if any(isinstance(x, ast.Compare) and isinstance(x.ops[0], (ast.In, ast.NotIn)) and const_str(x.left) == '=' and unparse(x.comparators[0]) == av for x in nodes(lp, ast.Compare)) and (verdict is None or verdict[0] == 'ok'):
+				if not any(isinstance(x, ast.Call) and isinstance(x.func, ast.Attribute) and x.func.attr == 'isidentifier' for x in nodes(lp, ast.Call)) and not any(isinstance(x.func, ast.Attribute) and unparse(x.func.value) == 're' for x in nodes(lp, ast.Call)):
+					verdict = ('bad', lp, f"_parse takes every piece with `'=' in {av}` for a labelled argument: `=` inside quotes, brackets or a comparison cuts a positional argument")
+			if verdict is None:
+				r.skip('decorator-label', (DECORATOR, lp.lineno), 'the way _parse recognises a labelled argument is not one this check reads')
+			elif verdict[0] == 'bad':
+				r.violate('decorator-label', (DECORATOR, verdict[1].lineno), verdict[2], unparse(verdict[1])[:120])
+			elif verdict[0] == 'skip':
+				r.skip('decorator-label', (DECORATOR, verdict[1].lineno), verdict[2])
+			else:
+				r.ok('decorator-label', (DECORATOR, verdict[1].lineno))
+	cm = idx.mod(CPPVIEW)
+	pc = cm.cls('CppViewHelper')
+	g = cm.func('CppViewHelper.Param.parse')
+	if g is None:
+		r.skip('parameter-default', (CPPVIEW, 1), 'CppViewHelper.Param.parse vanished')
+		return
+	gx = g.node
+	par = [p_ for p_ in g.params() if p_ not in ('self', 'cls')][0]
+	ctor = [c_ for c_ in nodes(gx, ast.Call) if isinstance(c_.func, ast.Name) and c_.func.id == 'cls' and len(c_.args) + len(c_.keywords) >= 3]
+	splits = [c_ for c_ in nodes(gx, ast.Call) if isinstance(c_.func, ast.Attribute) and c_.func.attr == 'break_separator' and len(c_.args) >= 2 and const_str(c_.args[1]) == '=']
+	if len(ctor) != 1 or not splits:
+		r.skip('parameter-default', g.where, 'Param.parse no longer splits with break_separator(parameter, "=") and returns cls(type, name, default)')
+		return
+	dv = ctor[0].args[2] if len(ctor[0].args) >= 3 else next((k.value for k in ctor[0].keywords if k.arg == 'default_value'), None)
+	from vlib.match import may_reach, split_tuple_assigns
+	gs = split_tuple_assigns(gx)
+	ctor_s = [c_ for c_ in nodes(gs, ast.Call) if isinstance(c_.func, ast.Name) and c_.func.id == 'cls' and len(c_.args) + len(c_.keywords) >= 3][0]
+	dv = ctor_s.args[2] if len(ctor_s.args) >= 3 else next((k.value for k in ctor_s.keywords if k.arg == 'default_value'), None)
+	defs_ = may_reach(gs, dv) if isinstance(dv, ast.Name) else [dv]
+	defs_ = [getattr(d, 'value', d) if isinstance(d, (ast.Assign, ast.AnnAssign)) else d for d in defs_ or []]
+	if not defs_:
+		r.skip('parameter-default', g.where, 'definitions of the default value not found')
+		return
+	pieces = {t.id for a in nodes(gs, (ast.Assign, ast.AnnAssign)) if a.value is not None and any(x is s_ for s_ in splits for x in ast.walk(a.value)) or isinstance(a.value, ast.Call) and unparse(a.value) in {unparse(s_) for s_ in splits} for t in ([a.target] if isinstance(a, ast.AnnAssign) else a.targets) if isinstance(t, ast.Name)}
+	verdict = None
+	for d in defs_:
+		def arms(x: ast.AST) -> list[ast.AST]:
+			# (A if c else B) -> A, B;  (A if c else (p, q))[1] -> A[1], q
+			if isinstance(x, ast.IfExp):
+				return arms(x.body) + arms(x.orelse)
+			if isinstance(x, ast.Subscript) and isinstance(x.slice, ast.Constant) and isinstance(x.slice.value, int):
+				out = []
+				for y in arms(x.value):
+					if isinstance(y, ast.Tuple) and -len(y.elts) <= x.slice.value < len(y.elts):
+						out.extend(arms(y.elts[x.slice.value]))
+					else:
+						out.append(ast.copy_location(ast.Subscript(value=y, slice=x.slice, ctx=ast.Load()), x) if y is not x.value else x)
+				return out
+			return [x]
+		alts = arms(d)
+		for e in alts:
+			txt = unparse(e)
+			if isinstance(e, ast.Constant) and e.value == '':
+				continue
+			one_piece = isinstance(e, ast.Subscript) and isinstance(e.slice, ast.Constant) and e.slice.value == 1 and (unparse(e.value) in pieces or unparse(e.value) in {unparse(s_) for s_ in splits})
+			rest_join = isinstance(e, ast.Call) and isinstance(e.func, ast.Attribute) and e.func.attr == 'join' and const_str(e.func.value) == '=' and e.args and ('[1:]' in unparse(e.args[0]))
+			tail = any(isinstance(x, ast.Subscript) and unparse(x.value) == par and isinstance(x.slice, ast.Slice) and x.slice.upper is None and x.slice.lower is not None and any(isinstance(y, ast.Call) and isinstance(y.func, ast.Attribute) and y.func.attr in ('index', 'find') and y.args and const_str(y.args[0]) == '=' for y in ast.walk(x.slice.lower)) for x in ast.walk(e))
+			rtail = any(isinstance(y, ast.Call) and isinstance(y.func, ast.Attribute) and y.func.attr in ('rindex', 'rfind', 'rpartition', 'rsplit') and y.args and const_str(y.args[0]) == '=' for y in ast.walk(e))
+			if rtail:
+				verdict = ('bad', e, f'the default is cut at the LAST `=` of the parameter (`{txt[:70]}`): of `bool b = a == c` only `c` is kept')
+			elif one_piece:
+				verdict = ('bad', e, f'the default is the SECOND piece of break_separator(parameter, "=") alone (`{txt[:60]}`): a default that contains `=` outside brackets and quotes (`bool b = a == c`, `x <= 1`) gives more than two pieces and is dropped or truncated, so the declaration loses its default')
+			elif tail or rest_join:
+				verdict = verdict or ('ok', e, '')
+			else:
+				verdict = verdict or ('skip', e, f'default computed as `{txt[:70]}`')
+	if verdict is None:
+		r.skip('parameter-default', g.where, 'no non-empty default found')
+	elif verdict[0] == 'bad':
+		r.violate('parameter-default', (CPPVIEW, verdict[1].lineno), 'Param.parse: ' + verdict[2], unparse(verdict[1])[:120])
+	elif verdict[0] == 'skip':
+		r.skip('parameter-default', (CPPVIEW, verdict[1].lineno), verdict[2])
+	else:
+		r.ok('parameter-default', (CPPVIEW, verdict[1].lineno))
